@@ -30,6 +30,7 @@ def systematic_profile(name: str, kind_filter, raisers: bool, nq: int, nt: int, 
     def grams(rng: random.Random, tier: str):
         n = nq if tier == 'quick' else nt
         act = (lambda r, g, roots: corpus.attach_actions(r, g, actions_mode)) if actions_mode != 'none' else None
+        corpus.RACT_MODE[0] = 'void' if use_sem else 'mixed'
         return corpus.systematic(rng, name, kind_filter, raisers, max_grammars=n, heavy=heavy, ctx_names=ctx_names, actions=act)
     return Profile(name, grams, configs or amr_configs(), inputs or inputs_exhaustive(4, 5), oracles, use_sem=use_sem, **kw)
 
@@ -39,6 +40,7 @@ def random_profile(name: str, core_only: bool, raisers: bool, nq: int, nt: int, 
     def grams(rng: random.Random, tier: str):
         n = nq if tier == 'quick' else nt
         out = []
+        corpus.RACT_MODE[0] = 'void' if use_sem else 'mixed'
         for i in range(n):
             rg = corpus.RandGen(rng, core_only, raisers, rng.randint(*n_rules), alphabet=alphabet, eol_atoms=eol_atoms, switches=switches)
             g, roots = rg.grammar(f"{name}{i}")
@@ -46,3 +48,55 @@ def random_profile(name: str, core_only: bool, raisers: bool, nq: int, nt: int, 
             out.append((g, roots, {'kind': 'random'}))
         return out
     return Profile(name, grams, configs or amr_configs(), inputs or inputs_exhaustive(4, 5), oracles, use_sem=use_sem, **kw)
+
+
+def control_profile(name: str, nq: int, nt: int, oracles, actions_mode='throw', configs=None, inputs=None, **kw) -> Profile:
+    """Control switching: random grammars in which some named rules are also reachable through `control< ctl2, R >`
+    (alone and followed by the same rule outside the wrapper) and ~30 % of the rules visible to the control carry
+    `change_control< ctl2 >`.  The second family marks every line it logs and always defines unwind(); the first one
+    is the run's control (with or without unwind())."""
+    from .gram import P, CTL, Ref, ActSpec
+
+    def grams(rng: random.Random, tier: str):
+        n = nq if tier == 'quick' else nt
+        out = []
+        for i in range(n):
+            rg = corpus.RandGen(rng, False, True, rng.randint(3, 6), switches=True)
+            g, roots = rg.grammar(f"{name}{i}")
+            extra_roots = []
+            for rid in list(g.named)[:3]:
+                extra_roots.append(g.rule(P('control', CTL(2), Ref(rid))).id)
+                extra_roots.append(g.rule(P('seq', P('control', CTL(2), Ref(rid)), Ref(rid))).id)
+            g.resolve()
+            corpus.attach_actions(rng, g, actions_mode)
+            for nid, nd in g.nodes.items():
+                if nd.ctl and rng.random() < 0.3:
+                    a = g.acts.get(nid) or ActSpec()
+                    if a.wrap == 'none':
+                        a.wrap = 'cc'
+                        g.acts[nid] = a
+            out.append((g, (extra_roots + roots)[:6], {'kind': 'control'}))
+        return out
+    return Profile(name, grams, configs or amr_configs(ams=((1, 'r'), (0, 'o')), unwinds=(1, 0)), inputs or inputs_exhaustive(4, 5, cap_q=80, cap_t=400),
+                   oracles, **kw)
+
+
+def mustif_profile(name: str, nq: int, nt: int, oracles, configs=None, inputs=None, **kw) -> Profile:
+    """The run's control is `must_if< Errors, ctl >::control`: random grammars (must / raise rules, vetoing and void actions,
+    try_catch) with a message for a third of the rules visible to the control."""
+    def grams(rng: random.Random, tier: str):
+        n = nq if tier == 'quick' else nt
+        out = []
+        corpus.RACT_MODE[0] = 'novoid-throw'
+        for i in range(n):
+            rg = corpus.RandGen(rng, False, True, rng.randint(3, 6))
+            g, roots = rg.grammar(f"{name}{i}")
+            corpus.attach_actions(rng, g, 'bool')
+            g.mi_msgs = {nid: f"custom-message-{nid}" for nid, nd in g.nodes.items() if nd.ctl and rng.random() < 0.33}
+            out.append((g, roots[:3], {'kind': 'must_if'}))
+        corpus.RACT_MODE[0] = 'mixed'
+        return out
+
+    def cfgs(g: Grammar, root: int, tier: str) -> List[Config]:
+        return [Config(root, a, m, 'lf_crlf', 0, uw, 0, 0, 1) for (a, m) in ((1, 'r'), (1, 'o'), (0, 'o')) for uw in (1,)]
+    return Profile(name, grams, configs or cfgs, inputs or inputs_exhaustive(4, 5, cap_q=70, cap_t=300), oracles, **kw)
